@@ -27,6 +27,9 @@ func NewKeyPool(t *rapid.T, conn, n int, binary bool) *KeyPool {
 			k = []byte(fmt.Sprintf("{c%dt%d}k%d", conn, rapid.IntRange(0, 2).Draw(t, "tag"), i))
 		case 1:
 			k = []byte(fmt.Sprintf("c%d:{}x{t%d}%d", conn, i, i))
+		case 4:
+			// arbitrary brace placements: '}' before the first '{', nested and unbalanced braces
+			k = append([]byte(fmt.Sprintf("c%d:%d", conn, i)), []byte(rapid.StringMatching(`[{}ab]{1,8}`).Draw(t, "braces"))...)
 		case 2:
 			if binary {
 				k = append([]byte(fmt.Sprintf("c%d:", conn)), rapid.SliceOfN(rapid.Byte(), 0, 12).Draw(t, "kb")...)
